@@ -55,9 +55,11 @@ class Store(ephemera.Store[_V], Generic[_V]):
 
     # Indexers' internal protocol. Must not be used by handlers & operators.
     def _replace(self, acckey: Key, obj: _V) -> None:
-        # Minimise the dict updates and rehashes for no need: only update if really changed.
-        if acckey not in self.__items or self.__items[acckey] != obj:
-            self.__items[acckey] = obj
+        # Always store the latest value, even if it "equals" to the old one: the equality of values
+        # says nothing on their identity (``True == 1``, ``0.0 == False``, ``[1] == [True]``),
+        # and the comparison itself can fail or be ambiguous for arbitrary values (e.g. arrays).
+        # Assigning to an existing key of a dict neither rehashes nor reorders it.
+        self.__items[acckey] = obj
 
 
 class Index(ephemera.Index[_K, _V], Generic[_K, _V]):
